@@ -50,6 +50,8 @@ type C05Case struct {
 	Multi      bool     `json:"multi"`
 	// a deepObject query judged against Model/DeepObject.v (harness/c05deepcoq.go); the fields above are then unused
 	Deep *C05DeepQ `json:"deep_object,omitempty"`
+
+	viaForm bool // harness/c05transport.go
 }
 
 type C05Obs struct {
@@ -255,6 +257,9 @@ func runC05(c *C05Case) C05Obs {
 	route := &routers.Route{Spec: doc, Path: "/p", PathItem: item, Method: "GET", Operation: op}
 	mk := func() *openapi3filter.RequestValidationInput {
 		req, pp := c.request()
+		if c.viaForm {
+			req, pp = c.parsedFormRequest()
+		}
 		return &openapi3filter.RequestValidationInput{Request: req, PathParams: pp, Route: route,
 			Options: &openapi3filter.Options{MultiError: c.Multi, SkipSettingDefaults: true}}
 	}
@@ -776,6 +781,10 @@ func init() {
 				continue // replayed deepObject cases are handled below
 			}
 			o := runC05(c)
+			for _, t := range c05Transport(c, &o) {
+				meta.Histogram["oracle:"+t[0]]++
+				meta.GoViolation = append(meta.GoViolation, map[string]any{"signature": t[0], "cases": []any{c}, "go_observation": t[1], "judgement": "the way the parameter reaches the decoder: " + t[0] + " " + t[1]})
+			}
 			terms = append(terms, c05Coq(c, &o))
 			meta.Cases = append(meta.Cases, map[string]any{"input": c, "go": o})
 			key, _ := json.Marshal(c)
